@@ -58,31 +58,61 @@ theorem callH_step (st : St) (g h : HId) : CacheStep h st (callH st g).1 := by
   unfold callH
   by_cases hc : (st.h g).cached = true
   · simp [hc, CacheStep.refl]
-  · simp only [hc]
-    by_cases e : g = h
-    · subst e
-      right
-      simp only [Bool.not_eq_true] at hc
-      simp [cell, hc]
-    · left; simp [cell, e]
+  · by_cases hf : st.failing g ((st.h g).tries + 1) = true
+    · -- the loader raised: only the invocation counter moved
+      simp only [hc, hf, if_true]
+      left
+      by_cases e : g = h
+      · subst e; simp [cell]
+      · simp [cell, e]
+    · simp only [hc, hf]
+      by_cases e : g = h
+      · subst e
+        right
+        simp only [Bool.not_eq_true] at hc
+        simp [cell, hc]
+      · left; simp [cell, e]
 
 theorem callH_inv (st : St) (g : HId) (hi : HInv st) : HInv (callH st g).1 := by
   unfold callH
   by_cases hc : (st.h g).cached = true
   · simpa [hc] using hi
-  · simp only [hc]
-    intro h
-    by_cases e : g = h
-    · subst e; simp
-    · simpa [e] using hi h
+  · by_cases hf : st.failing g ((st.h g).tries + 1) = true
+    · simp only [hc, hf, if_true]
+      intro h
+      by_cases e : g = h
+      · subst e; simp only [h_setH, if_true]; intro hx; exact absurd hx hc
+      · simpa [e] using hi h
+    · simp only [hc, hf]
+      intro h
+      by_cases e : g = h
+      · subst e; simp
+      · simpa [e] using hi h
 
-theorem callH_val (st : St) (g : HId) (hi : HInv st) : ValOut (callH st g).1 (callH st g).2 := by
-  unfold callH
+/-- what a call hands out, unless the loader raised, is the object of the latest load that returned -/
+theorem callH_val (st : St) (g : HId) (hi : HInv st) (hne : ∀ a n, (callH st g).2 ≠ .exc a n) :
+    ValOut (callH st g).1 (callH st g).2 := by
+  unfold callH at hne ⊢
   by_cases hc : (st.h g).cached = true
   · simp only [hc, if_true]
     exact ⟨g, hi g hc, hc⟩
-  · simp only [hc]
-    exact ⟨g, by simp, by simp⟩
+  · by_cases hf : st.failing g ((st.h g).tries + 1) = true
+    · simp only [hc, hf, if_true] at hne
+      exact absurd rfl (hne _ _)
+    · simp only [hc, hf]
+      exact ⟨g, by simp, by simp⟩
+
+theorem itemOf_ok (x v : Val) (h : itemOf x = .ok (.val v)) : x = v ∧ ∀ a n, x ≠ .exc a n := by
+  cases x with
+  | none => simp only [itemOf, Outcome.ok.injEq, Item.val.injEq] at h; exact ⟨h, fun _ _ e => by cases e⟩
+  | tok g k => simp only [itemOf, Outcome.ok.injEq, Item.val.injEq] at h; exact ⟨h, fun _ _ e => by cases e⟩
+  | exc g k => simp [itemOf] at h
+
+theorem itemOf_not_map (x : Val) (c : MId) : itemOf x ≠ .ok (.map c) := by
+  cases x <;> simp [itemOf]
+
+theorem itemOf_not_smap (x : Val) (c : Nat) : itemOf x ≠ .ok (.smap c) := by
+  cases x <;> simp [itemOf]
 
 theorem clearH_other (st : St) (g h : HId) (e : g ≠ h) : cell (clearH st g) h = cell st h := by
   simp [clearH, cell, e]
@@ -224,9 +254,9 @@ theorem getItemPath_val (st : St) (i : MId) (ps : List String) (last : String) (
   · cases hv
   · split at hv
     · rename_i t _ g hg
-      simp only [Outcome.ok.injEq, Item.val.injEq] at hv
-      subst hv
-      exact callH_val st g hi
+      obtain ⟨e, hne⟩ := itemOf_ok _ _ hv
+      rw [← e]
+      exact callH_val st g hi hne
     · split at hv <;> cases hv
 
 theorem getItemPath_map (st : St) (i : MId) (ps : List String) (last : String) (st' : St) (c : MId)
@@ -235,7 +265,7 @@ theorem getItemPath_map (st : St) (i : MId) (ps : List String) (last : String) (
   split at h
   · cases h
   · split at h
-    · cases h
+    · simp only [Prod.mk.injEq] at h; exact absurd h.2 (itemOf_not_map _ _)
     · split at h
       · simp only [Prod.mk.injEq] at h; exact h.1.symm
       · cases h
@@ -286,9 +316,9 @@ theorem sGetAttr1_props (st : St) (s : Nat) (k : String) (hi : HInv st) :
   · split
     · rename_i g hg
       refine ⟨fun h => callH_step st g h, callH_inv st g hi, fun v hv => ?_⟩
-      simp only [Outcome.ok.injEq, Item.val.injEq] at hv
-      subst hv
-      exact callH_val st g hi
+      obtain ⟨e, hne⟩ := itemOf_ok _ _ hv
+      rw [← e]
+      exact callH_val st g hi hne
     · exact ⟨fun h => CacheStep.refl h st, hi, fun v hv => by simp at hv⟩
     · exact ⟨fun h => CacheStep.refl h st, hi, fun v hv => by simp at hv⟩
   · split
@@ -336,6 +366,7 @@ theorem sItems_props (st : St) (s : Nat) (ks : List String) (hi : HInv st) :
 
 /-- the loaded resource an operation handed to the program, if any -/
 def valOf : Out → Option Val
+  | .val (.exc _ _) => none
   | .val v => some v
   | .item (.ok (.val v)) => some v
   | _ => none
